@@ -1391,6 +1391,15 @@ class CallGraph:
         vals: set = set()
         sites = [cs for cs in self.callers_of(fi.fq) if within is None or cs.caller.fq in within]
         if not sites:
+            # an entry point nobody in the repository calls with this parameter: its constant default, if it has one (the
+            # properties speak about the library called the way its own code and documentation call it)
+            d = fi.node.args.defaults
+            di = names.index(param) - (len(names) - len(d))
+            if 0 <= di < len(d):
+                try:
+                    return {ConstEval(self.repo, fi.module).eval(d[di], {})}
+                except (NotConst, TypeError):
+                    return None
             return None
         for cs in sites:
             arg = None
